@@ -126,3 +126,26 @@ Proof.
   - apply rmin_below; [apply row_leb_total | apply row_leb_trans].
   - apply rmin_first.
 Qed.
+
+(* ---- group sums add up to the overall sum ------------------------------------------------------------------------------ *)
+Definition zsum (f : row -> Z) (l : list row) : Z := fold_right (fun r acc => (f r + acc)%Z) 0%Z l.
+
+Lemma zsum_app f a b : zsum f (a ++ b) = (zsum f a + zsum f b)%Z.
+Proof. unfold zsum. induction a as [|x t IH]; cbn [app fold_right]; [lia|]. rewrite IH. lia. Qed.
+
+Lemma zsum_perm f l1 l2 : Permutation l1 l2 -> zsum f l1 = zsum f l2.
+Proof. unfold zsum. induction 1; cbn [fold_right]; lia. Qed.
+
+Lemma zsum_concat f ls : zsum f (concat ls) = fold_right (fun g acc => (zsum f g + acc)%Z) 0%Z ls.
+Proof. induction ls as [|g t IH]; cbn [concat fold_right]; [reflexivity|]. rewrite zsum_app, IH. reflexivity. Qed.
+
+Theorem group_sums_add_up (f : row -> Z) idx (bs : option nat) rows :
+  (forall b, bs = Some b -> (1 <= b)%nat) ->
+  fold_right (fun g acc => (zsum f (snd g) + acc)%Z) 0%Z (groupby (getkey idx) (sort_data (row_leb false idx) bs rows))
+  = zsum f rows.
+Proof.
+  intros Hb. destruct (rowgroupby_groups idx bs rows Hb) as [Hperm _].
+  rewrite <- (zsum_perm f _ _ Hperm). rewrite zsum_concat. clear Hperm.
+  induction (groupby (getkey idx) (sort_data (row_leb false idx) bs rows)) as [|g t IH]; cbn [map fold_right]; [reflexivity|].
+  rewrite IH. reflexivity.
+Qed.
